@@ -375,6 +375,12 @@ def stateCore (focus : String) (c : Case) : Acc × String := Id.run do
         -- --- coefficients (C01)
         if wants focus "coef" then
           if let some (some ci) := o.coef then
+            -- every singular value at or below the threshold: the minimum-norm minimiser is ZERO, exactly
+            -- (the relative comparisons below have no scale in that case and would skip it)
+            if cond.rank == 0 then
+              acc := { acc with compared := acc.compared + 1 }
+              if !(ci.a.all fun v => v == 0.0) then
+                acc := { acc with mon := acc.mon.push s!"step{si}:all-singular-values-at-or-below-the-threshold-but-coefficients-not-zero:max={fmtF ci.maxAbs}" }
             if exact then acc := acc.addCorr (cmpRel s!"step{si}:coef" Cm.a ci.a (64.0 * u) (64.0 * u * ymax / cond.smax))
             else acc := acc.addCorr (cmpArr s!"step{si}:coef" Cm.a ci.a tolC (max cmax 1e-300))
             -- monitor: truncated normal equations A_εᵀ (Y_w − A_ε C) = 0 on the implementation's C,
@@ -499,7 +505,7 @@ def stateCore (focus : String) (c : Case) : Acc × String := Id.run do
       (if wants focus "wtwins" then ["twinW", "twinU", "twinZ"] else []) ++
       (if wants focus "ptwins" then ["twinSeq", "twinInto", "twinIntoPar"] else []) ++
       -- the problem itself, queried again after a clone of it was moved elsewhere and queried (every focus)
-      ["twinAfterClone"]
+      ["twinAfterClone", "twinCloneSelf"]
     for pre in twinList do
       if (step.obs.find? (·.1 == pre)).isSome then
         let t := step.get pre
